@@ -52,6 +52,7 @@ Definition reviewed_sites : list (string * string * string * string) :=
     ("padding.py", "_maybe_swap_dimension_names", "concat", "to_name + 'dummy'");
     ("transform.py", "input_handling.wrapper_input_handling", "concat", "'_' + temp_dim");
     ("transform.py", "input_handling.wrapper_input_handling", "concat", "'_' + temp_dim2");
+    ("transform.py", "conservative_interpolation", "concat", "'_' + remapped");
     (* the SGRID attribute grammar 'dim: dim (padding: kind)': tokens are compared whole
        (==) after splitting on blanks and ':'; identifiers contain neither *)
     ("sgrid.py", "get_axis_positions_and_coords", "len-of-name", "len(dim)");
